@@ -49,6 +49,11 @@
           (item = `=…` string | `~` None), res = `R<oid|~>,…`; for acf the fields are `blk` (next block format),
           `out <pend> <res>`, `in <pend> <res>`;
           elem-out = `<oid> <streamLink|~> <enc> <name>:<P|->:<res> …`
+        `ff <16 hex digits>`            "{:.5f}".format(x) for the double with that bit pattern (FloatType.dumps) -> `<text>`
+        `f7 <16 hex digits>`            "{:07.5f}".format(x) -> `<text>`
+        `fp <cp>*`                      float(str) (FloatType.loads) -> `<16 hex digits>` (any NaN as 7ff8000000000000) | `E`
+        `sd <num> <den>`                SecondsType.dumps(Fraction(num, den)) -> `<text>` | `E` (OverflowError)
+        `sl <cp>*`                      SecondsType.loads = Fraction(str) -> `<num>/<den>` | `E`
    out: `bad-op` for a malformed line. -/
 import Earverif.Model.TimeFormat
 import Earverif.Model.GenIds
@@ -58,6 +63,7 @@ import Earverif.Model.XmlCustom
 import Earverif.Model.XmlElements
 import Earverif.Model.ChnaTransfer
 import Earverif.Model.AdmRefs
+import Earverif.Model.FloatText
 import Earverif.Driver.Util
 open Earverif.Driver Earverif.Digits
 
@@ -777,8 +783,55 @@ def answerR (line : String) : String :=
 
 end Refs
 
+section FloatText
+open Earverif.FloatText
+
+def hex16 (n : Nat) : String :=
+  String.ofList ((List.range 16).reverse.map fun i => hexChar (n / 16 ^ i % 16)) |>.toLower
+
+def answerF (ws : List String) : String :=
+  match ws with
+  | ["ff", h] =>
+    match hexNum? h with
+    | some w => if h.length = 16 then str (fmt5 (ofBits64 w)) else "bad-op"
+    | none => "bad-op"
+  | ["f7", h] =>
+    match hexNum? h with
+    | some w => if h.length = 16 then str (fmt07_5 (ofBits64 w)) else "bad-op"
+    | none => "bad-op"
+  | "fp" :: cs =>
+    match chars? cs with
+    | some cs =>
+      match parseFloat cs with
+      | some x => (match toBits64 x with | some w => hex16 w | none => "not-a-double")
+      | none => "E"
+    | none => "bad-op"
+  | ["sd", n, d] =>
+    match n.toInt?, d.toNat? with
+    | some n, some d =>
+      if d = 0 then "bad-op" else
+      match secondsDumps (mkRat n d) with
+      | some cs => str cs
+      | none => "E"
+    | _, _ => "bad-op"
+  | "sl" :: cs =>
+    match chars? cs with
+    | some cs =>
+      match parseFraction cs with
+      | some q => s!"{q.num}/{q.den}"
+      | none => "E"
+    | none => "bad-op"
+  | _ => "bad-op"
+
+end FloatText
+
 def answer (line : String) : String :=
   match words line with
+  | "ff" :: _ => answerF (words line)
+  | "f7" :: _ => answerF (words line)
+  | "fp" :: _ => answerF (words line)
+  | "sd" :: _ => answerF (words line)
+  | "sl" :: _ => answerF (words line)
   | "tp" :: ws =>
     match chars? ws with
     | some cs => showTime (Earverif.TimeFormat.parseTime cs)
